@@ -19,8 +19,9 @@ theorem bodyR_mode : ∀ (p : Prog) (gen : Bool) (t : Nat) (env : List Val) (cau
   | .ret _, _, _, _, _, _, _ => by simp [bodyR]
   | .res _, _, _, _, _, _, _ => by simp [bodyR]
   | .raise _, _, _, _, _, _, _ => by simp [bodyR]
+  | .raiseB _, _, _, _, _, _, _ => by simp [bodyR]
   | .reraise, _, _, _, _, _, _ => by simp [bodyR]
-  | .yld y k h, gen, t, env, caught, i, s => by
+  | .yld hb y k h, gen, t, env, caught, i, s => by
     unfold bodyR
     cases gen
     · simp
@@ -29,7 +30,11 @@ theorem bodyR_mode : ∀ (p : Prog) (gen : Bool) (t : Nat) (env : List Val) (cau
       rw [hys] at hy
       cases r with
       | ok v => simp; rw [bodyR_mode k]; simpa using hy
-      | err e => simp; rw [bodyR_mode h]; simpa using hy
+      | err e =>
+        simp only [Bool.not_true, Bool.false_eq_true, if_false]
+        split
+        · simpa using hy
+        · rw [bodyR_mode h]; simpa using hy
       | esc v => simpa using hy
   | .sync c child k h, gen, t, env, caught, i, s => by
     unfold bodyR
@@ -39,9 +44,13 @@ theorem bodyR_mode : ∀ (p : Prog) (gen : Bool) (t : Nat) (env : List Val) (cau
       rw [hcs] at hc
       cases r with
       | ok v => simp; rw [bodyR_mode k]; simpa [hm] using hc
-      | err e => simp; rw [bodyR_mode h]; simpa [hm] using hc
+      | err e =>
+        simp only [Bool.false_eq_true, if_false]
+        split
+        · simpa [hm] using hc
+        · rw [bodyR_mode h]; simpa [hm] using hc
       | esc v => simpa [hm] using hc
-    · simp
+    · simp [Err.isBase]
       rw [bodyR_mode h]; simp [hm]
 theorem ysR_mode : ∀ (y : Ys) (s : St), (ysR y s).2.mode = s.mode
   | .none, s => by simp [ysR]
@@ -73,8 +82,9 @@ theorem bodyA_mode : ∀ (p : Prog) (gen : Bool) (t : Nat) (env : List Val) (cau
   | .ret _, _, _, _, _, _, _ => by simp [bodyA]
   | .res _, _, _, _, _, _, _ => by simp [bodyA]
   | .raise _, _, _, _, _, _, _ => by simp [bodyA]
+  | .raiseB _, _, _, _, _, _, _ => by simp [bodyA]
   | .reraise, _, _, _, _, _, _ => by simp [bodyA]
-  | .yld y k h, gen, t, env, caught, i, s => by
+  | .yld hb y k h, gen, t, env, caught, i, s => by
     unfold bodyA
     cases gen
     · simp
@@ -83,7 +93,11 @@ theorem bodyA_mode : ∀ (p : Prog) (gen : Bool) (t : Nat) (env : List Val) (cau
       rw [hys] at hy
       cases r with
       | ok v => simp; rw [bodyA_mode k]; simpa using hy
-      | err e => simp; rw [bodyA_mode h]; simpa using hy
+      | err e =>
+        simp only [Bool.not_true, Bool.false_eq_true, if_false]
+        split
+        · simpa using hy
+        · rw [bodyA_mode h]; simpa using hy
       | esc v => simpa using hy
   | .sync c child k h, gen, t, env, caught, i, s => by
     unfold bodyA
@@ -93,9 +107,13 @@ theorem bodyA_mode : ∀ (p : Prog) (gen : Bool) (t : Nat) (env : List Val) (cau
       rw [hcs] at hc
       cases r with
       | ok v => simp; rw [bodyA_mode k]; simpa [hm] using hc
-      | err e => simp; rw [bodyA_mode h]; simpa [hm] using hc
+      | err e =>
+        simp only [Bool.false_eq_true, if_false]
+        split
+        · simpa [hm] using hc
+        · rw [bodyA_mode h]; simpa [hm] using hc
       | esc v => simpa [hm] using hc
-    · simp
+    · simp [Err.isBase]
       rw [bodyA_mode h]; simp [hm]
 theorem resolveA_mode : ∀ (y : Ys) (s : St), (resolveA y s).2.mode = s.mode
   | .none, s => by simp [resolveA]
@@ -119,6 +137,154 @@ theorem gatherA_mode : ∀ (l : YsL) (s : St), (gatherA l s).2.mode = s.mode
     rw [gatherA_mode l]
 end
 
+/-! ### a program that raises no BaseException-only error never produces one -/
+
+def Out.noB : Out → Bool
+  | .err e => !e.isBase
+  | _ => true
+
+def OutL.noB : OutL → Bool
+  | .err e => !e.isBase
+  | _ => true
+
+theorem combine_noB {a : Out} {b : OutL} (ha : a.noB = true) (hb : b.noB = true) : (combine a b).noB = true := by
+  cases a <;> cases b <;> simp_all [combine, Out.noB, OutL.noB]
+
+theorem wrap_noB {r : OutL} (f : List Val → Val) (h : r.noB = true) : (r.wrap f).noB = true := by
+  cases r <;> simp_all [OutL.wrap, Out.noB, OutL.noB]
+
+mutual
+theorem bodyR_noB : ∀ (p : Prog) (gen : Bool) (t : Nat) (env : List Val) (caught : Option Err) (i : Nat) (s : St),
+    p.noRaiseB = true → (caught.getD (.u 0)).isBase = false → (bodyR gen t env caught i p s).1.noB = true
+  | .ret _, _, _, _, _, _, _, _, _ => by simp [bodyR, Out.noB]
+  | .res _, _, _, _, _, _, _, _, _ => by simp [bodyR, Out.noB]
+  | .raise _, _, _, _, _, _, _, _, _ => by simp [bodyR, Out.noB, Err.isBase]
+  | .raiseB _, _, _, _, _, _, _, hb, _ => by simp [Prog.noRaiseB] at hb
+  | .reraise, _, _, _, _, _, _, _, hc => by simp [bodyR, Out.noB, hc]
+  | .yld hb y k h, gen, t, env, caught, i, s, hn, hc => by
+    simp only [Prog.noRaiseB, Bool.and_eq_true] at hn
+    unfold bodyR
+    cases gen
+    · simp [Out.noB, Err.isBase]
+    · have hy := ysR_noB y s hn.1.1
+      rcases hR : ysR y s with ⟨r, s1⟩
+      rw [hR] at hy
+      cases r with
+      | ok v => simp; exact bodyR_noB k _ _ _ _ _ _ hn.1.2 hc
+      | err e =>
+        have he : e.isBase = false := by simpa [Out.noB] using hy
+        simp only [Bool.not_true, Bool.false_eq_true, if_false, he, Bool.false_and]
+        exact bodyR_noB h _ _ _ _ _ _ hn.2 (by simpa using he)
+      | esc v => simp [Out.noB]
+  | .sync c child k h, gen, t, env, caught, i, s, hn, hc => by
+    simp only [Prog.noRaiseB, Bool.and_eq_true] at hn
+    unfold bodyR
+    cases hm : s.mode
+    · have hy := bodyR_noB child c.kind.isGen c.label [] none 0 (s.emit (.start c.label false)) hn.1.1 rfl
+      rcases hR : bodyR c.kind.isGen c.label [] none 0 child (s.emit (.start c.label false)) with ⟨r, s1⟩
+      rw [hR] at hy
+      cases r with
+      | ok v => simp; exact bodyR_noB k _ _ _ _ _ _ hn.1.2 hc
+      | err e =>
+        have he : e.isBase = false := by simpa [Out.noB] using hy
+        simp only [Bool.false_eq_true, if_false, he]
+        exact bodyR_noB h _ _ _ _ _ _ hn.2 (by simpa using he)
+      | esc v => simp [Out.noB]
+    · simp [Err.isBase]
+      exact bodyR_noB h _ _ _ _ _ _ hn.2 rfl
+theorem ysR_noB : ∀ (y : Ys) (s : St), y.noRaiseB = true → (ysR y s).1.noB = true
+  | .none, _, _ => by simp [ysR, Out.noB]
+  | .junk, _, _ => by simp [ysR, Out.noB, Err.isBase]
+  | .const _, _, _ => by simp [ysR, Out.noB]
+  | .pconst _, _, _ => by simp [ysR, Out.noB]
+  | .task c p, s, hn => by
+    simp only [Ys.noRaiseB] at hn
+    unfold ysR
+    cases hm : s.mode
+    · simp; exact bodyR_noB p _ _ _ _ _ _ hn rfl
+    · simp [Out.noB, Err.isBase]
+  | .tup l, s, hn => by simp only [Ys.noRaiseB] at hn; simp only [ysR]; exact wrap_noB _ (yslR_noB l s hn)
+  | .lst l, s, hn => by simp only [Ys.noRaiseB] at hn; simp only [ysR]; exact wrap_noB _ (yslR_noB l s hn)
+  | .dict _ l, s, hn => by simp only [Ys.noRaiseB] at hn; simp only [ysR]; exact wrap_noB _ (yslR_noB l s hn)
+theorem yslR_noB : ∀ (l : YsL) (s : St), l.noRaiseB = true → (yslR l s).1.noB = true
+  | .nil, _, _ => by simp [yslR, OutL.noB]
+  | .cons y l, s, hn => by
+    simp only [YsL.noRaiseB, Bool.and_eq_true] at hn
+    simp only [yslR]
+    exact combine_noB (ysR_noB y s hn.1) (yslR_noB l _ hn.2)
+end
+
+theorem callA_fst' (c : Call) (run : Bool → St → Out × St) (s : St) :
+    ∃ st : St, (callA c run s).1 = (run c.kind.isGen st).1 := by
+  unfold callA
+  exact ⟨_, rfl⟩
+
+mutual
+theorem bodyA_noB : ∀ (p : Prog) (gen : Bool) (t : Nat) (env : List Val) (caught : Option Err) (i : Nat) (s : St),
+    p.noRaiseB = true → (caught.getD (.u 0)).isBase = false → (bodyA gen t env caught i p s).1.noB = true
+  | .ret _, _, _, _, _, _, _, _, _ => by simp [bodyA, Out.noB]
+  | .res _, _, _, _, _, _, _, _, _ => by simp [bodyA, Out.noB]
+  | .raise _, _, _, _, _, _, _, _, _ => by simp [bodyA, Out.noB, Err.isBase]
+  | .raiseB _, _, _, _, _, _, _, hb, _ => by simp [Prog.noRaiseB] at hb
+  | .reraise, _, _, _, _, _, _, _, hc => by simp [bodyA, Out.noB, hc]
+  | .yld hb y k h, gen, t, env, caught, i, s, hn, hc => by
+    simp only [Prog.noRaiseB, Bool.and_eq_true] at hn
+    unfold bodyA
+    cases gen
+    · simp [Out.noB, Err.isBase]
+    · have hy := resolveA_noB y s hn.1.1
+      rcases hR : resolveA y s with ⟨r, s1⟩
+      rw [hR] at hy
+      cases r with
+      | ok v => simp; exact bodyA_noB k _ _ _ _ _ _ hn.1.2 hc
+      | err e =>
+        have he : e.isBase = false := by simpa [Out.noB] using hy
+        simp only [Bool.not_true, Bool.false_eq_true, if_false, he]
+        exact bodyA_noB h _ _ _ _ _ _ hn.2 (by simpa using he)
+      | esc v => simp [Out.noB]
+  | .sync c child k h, gen, t, env, caught, i, s, hn, hc => by
+    simp only [Prog.noRaiseB, Bool.and_eq_true] at hn
+    unfold bodyA
+    cases hm : s.mode
+    · have hy := bodyR_noB child c.kind.isGen c.label [] none 0 (s.emit (.start c.label false)) hn.1.1 rfl
+      rcases hR : bodyR c.kind.isGen c.label [] none 0 child (s.emit (.start c.label false)) with ⟨r, s1⟩
+      rw [hR] at hy
+      cases r with
+      | ok v => simp; exact bodyA_noB k _ _ _ _ _ _ hn.1.2 hc
+      | err e =>
+        have he : e.isBase = false := by simpa [Out.noB] using hy
+        simp only [Bool.false_eq_true, if_false, he]
+        exact bodyA_noB h _ _ _ _ _ _ hn.2 (by simpa using he)
+      | esc v => simp [Out.noB]
+    · simp [Err.isBase]
+      exact bodyA_noB h _ _ _ _ _ _ hn.2 rfl
+theorem resolveA_noB : ∀ (y : Ys) (s : St), y.noRaiseB = true → (resolveA y s).1.noB = true
+  | .none, _, _ => by simp [resolveA, Out.noB]
+  | .junk, _, _ => by simp [resolveA, Out.noB, Err.isBase]
+  | .const _, _, _ => by simp [resolveA, Out.noB]
+  | .pconst _, s, _ => by
+    unfold resolveA
+    cases hm : s.mode <;> simp [Out.noB]
+  | .task c p, s, hn => by
+    simp only [Ys.noRaiseB] at hn
+    unfold resolveA
+    cases hm : s.mode
+    · simp [Out.noB, Err.isBase]
+    · simp only [if_true]
+      obtain ⟨st, heq⟩ := callA_fst' c (fun g s' => bodyA g c.label [] none 0 p s') s
+      rw [heq]
+      exact bodyA_noB p _ _ _ _ _ _ hn rfl
+  | .tup l, s, hn => by simp only [Ys.noRaiseB] at hn; simp only [resolveA]; exact wrap_noB _ (gatherA_noB l s hn)
+  | .lst l, s, hn => by simp only [Ys.noRaiseB] at hn; simp only [resolveA]; exact wrap_noB _ (gatherA_noB l s hn)
+  | .dict _ l, s, hn => by simp only [Ys.noRaiseB] at hn; simp only [resolveA]; exact wrap_noB _ (gatherA_noB l s hn)
+theorem gatherA_noB : ∀ (l : YsL) (s : St), l.noRaiseB = true → (gatherA l s).1.noB = true
+  | .nil, _, _ => by simp [gatherA, OutL.noB]
+  | .cons y l, s, hn => by
+    simp only [YsL.noRaiseB, Bool.and_eq_true] at hn
+    simp only [gatherA]
+    exact combine_noB (resolveA_noB y s hn.1) (gatherA_noB l _ hn.2)
+end
+
 /-! ### asyncio evaluation = reference evaluation (no `result()`, no synchronous calls) -/
 
 theorem callA_fst (c : Call) (run : Bool → St → Out × St) (s : St) :
@@ -127,68 +293,114 @@ theorem callA_fst (c : Call) (run : Bool → St → Out × St) (s : St) :
   refine ⟨_, ?_, rfl⟩
   simp
 
+/-- the side condition of the equivalence: no handler of `p` catches BaseException, or `p` raises no BaseException-only
+    error (and none has been caught so far) -/
+def Safe (p : Prog) (caught : Option Err) : Prop :=
+  p.excOnly = true ∨ (p.noRaiseB = true ∧ (caught.getD (.u 0)).isBase = false)
+
+theorem Safe.ofBool {p : Prog} (h : p.safe = true) : Safe p none := by
+  simp only [Prog.safe, Bool.or_eq_true] at h
+  rcases h with h | h
+  · exact .inl h
+  · exact .inr ⟨h, rfl⟩
+
+def SafeY (y : Ys) : Prop := y.excOnly = true ∨ y.noRaiseB = true
+def SafeL (l : YsL) : Prop := l.excOnly = true ∨ l.noRaiseB = true
+
+theorem Safe.yld {hb : Bool} {y : Ys} {k h : Prog} {caught : Option Err} (hx : Safe (.yld hb y k h) caught) :
+    SafeY y ∧ Safe k caught ∧
+      ∀ e, (y.noRaiseB = true → e.isBase = false) →
+        ((e.isBase && !hb) = e.isBase) ∧ Safe h (some e) := by
+  rcases hx with hx | ⟨hx, hc⟩
+  · simp only [Prog.excOnly, Bool.and_eq_true, Bool.not_eq_true'] at hx
+    obtain ⟨⟨⟨hhb, hxy⟩, hxk⟩, hxh⟩ := hx
+    subst hhb
+    exact ⟨.inl hxy, .inl hxk, fun e _ => ⟨by simp, .inl hxh⟩⟩
+  · simp only [Prog.noRaiseB, Bool.and_eq_true] at hx
+    refine ⟨.inr hx.1.1, .inr ⟨hx.1.2, hc⟩, fun e he => ?_⟩
+    have := he hx.1.1
+    exact ⟨by simp [this], .inr ⟨hx.2, by simpa using this⟩⟩
+
+theorem SafeY.task {c : Call} {p : Prog} (hx : SafeY (.task c p)) : Safe p none := by
+  rcases hx with hx | hx
+  · exact .inl (by simpa [Ys.excOnly] using hx)
+  · exact .inr ⟨by simpa [Ys.noRaiseB] using hx, rfl⟩
+
+theorem SafeL.cons {y : Ys} {l : YsL} (hx : SafeL (.cons y l)) : SafeY y ∧ SafeL l := by
+  rcases hx with hx | hx
+  · simp only [YsL.excOnly, Bool.and_eq_true] at hx; exact ⟨.inl hx.1, .inl hx.2⟩
+  · simp only [YsL.noRaiseB, Bool.and_eq_true] at hx; exact ⟨.inr hx.1, .inr hx.2⟩
+
 mutual
 theorem bodyA_eq_bodyR : ∀ (p : Prog) (gen : Bool) (t : Nat) (env : List Val) (caught : Option Err) (i : Nat) (s s' : St),
-    s.mode = true → s'.mode = false → p.noRes = true → p.noSync = true →
+    s.mode = true → s'.mode = false → p.noRes = true → p.noSync = true → Safe p caught →
     (bodyA gen t env caught i p s).1 = (bodyR gen t env caught i p s').1
-  | .ret _, _, _, _, _, _, _, _, _, _, _, _ => by simp [bodyA, bodyR]
-  | .res _, _, _, _, _, _, _, _, _, _, hr, _ => by simp [Prog.noRes] at hr
-  | .raise _, _, _, _, _, _, _, _, _, _, _, _ => by simp [bodyA, bodyR]
-  | .reraise, _, _, _, _, _, _, _, _, _, _, _ => by simp [bodyA, bodyR]
-  | .sync _ _ _ _, _, _, _, _, _, _, _, _, _, _, hs => by simp [Prog.noSync] at hs
-  | .yld y k h, gen, t, env, caught, i, s, s', hm, hm', hr, hs => by
+  | .ret _, _, _, _, _, _, _, _, _, _, _, _, _ => by simp [bodyA, bodyR]
+  | .res _, _, _, _, _, _, _, _, _, _, hr, _, _ => by simp [Prog.noRes] at hr
+  | .raise _, _, _, _, _, _, _, _, _, _, _, _, _ => by simp [bodyA, bodyR]
+  | .raiseB _, _, _, _, _, _, _, _, _, _, _, _, _ => by simp [bodyA, bodyR]
+  | .reraise, _, _, _, _, _, _, _, _, _, _, _, _ => by simp [bodyA, bodyR]
+  | .sync _ _ _ _, _, _, _, _, _, _, _, _, _, _, hs, _ => by simp [Prog.noSync] at hs
+  | .yld hb y k h, gen, t, env, caught, i, s, s', hm, hm', hr, hs, hx => by
     simp only [Prog.noRes, Prog.noSync, Bool.and_eq_true] at hr hs
+    obtain ⟨hxy, hxk, hxh⟩ := hx.yld
     unfold bodyA bodyR
     cases gen
     · simp
-    · have hy := resolveA_eq_ysR y s s' hm hm' hr.1.1 hs.1.1
+    · have hy := resolveA_eq_ysR y s s' hm hm' hr.1.1 hs.1.1 hxy
       have h1 := resolveA_mode y s
       have h2 := ysR_mode y s'
+      have hnb := fun hn => resolveA_noB y s hn
       rcases hA : resolveA y s with ⟨r, s1⟩
       rcases hR : ysR y s' with ⟨r', s1'⟩
-      rw [hA] at hy h1
+      rw [hA] at hy h1 hnb
       rw [hR] at hy h2
-      simp only at hy h1 h2
+      simp only at hy h1 h2 hnb
       subst hy
       cases r with
       | ok v =>
         simp
-        exact bodyA_eq_bodyR k _ _ _ _ _ _ _ (by simp [h1, hm]) (by simp [h2, hm']) hr.1.2 hs.1.2
+        exact bodyA_eq_bodyR k _ _ _ _ _ _ _ (by simp [h1, hm]) (by simp [h2, hm']) hr.1.2 hs.1.2 hxk
       | err e =>
-        simp
-        exact bodyA_eq_bodyR h _ _ _ _ _ _ _ (by simp [h1, hm]) (by simp [h2, hm']) hr.2 hs.2
+        obtain ⟨hag, hsafe⟩ := hxh e (fun hn => by simpa [Out.noB] using hnb hn)
+        simp only [Bool.not_true, Bool.false_eq_true, if_false, hag]
+        split
+        · rfl
+        · exact bodyA_eq_bodyR h _ _ _ _ _ _ _ (by simp [h1, hm]) (by simp [h2, hm']) hr.2 hs.2 hsafe
       | esc v => simp
 theorem resolveA_eq_ysR : ∀ (y : Ys) (s s' : St),
-    s.mode = true → s'.mode = false → y.noRes = true → y.noSync = true → (resolveA y s).1 = (ysR y s').1
-  | .none, _, _, _, _, _, _ => by simp [resolveA, ysR]
-  | .junk, _, _, _, _, _, _ => by simp [resolveA, ysR]
-  | .const _, _, _, _, _, _, _ => by simp [resolveA, ysR]
-  | .pconst _, s, _, hm, _, _, _ => by simp [resolveA, ysR, hm]
-  | .task c p, s, s', hm, hm', hr, hs => by
+    s.mode = true → s'.mode = false → y.noRes = true → y.noSync = true → SafeY y →
+    (resolveA y s).1 = (ysR y s').1
+  | .none, _, _, _, _, _, _, _ => by simp [resolveA, ysR]
+  | .junk, _, _, _, _, _, _, _ => by simp [resolveA, ysR]
+  | .const _, _, _, _, _, _, _, _ => by simp [resolveA, ysR]
+  | .pconst _, s, _, hm, _, _, _, _ => by simp [resolveA, ysR, hm]
+  | .task c p, s, s', hm, hm', hr, hs, hx => by
     simp only [Ys.noRes, Ys.noSync] at hr hs
     unfold resolveA ysR
     simp only [hm, hm', if_true]
     obtain ⟨st, hst, heq⟩ := callA_fst c (fun g s' => bodyA g c.label [] none 0 p s') s
     rw [heq]
     simp
-    exact bodyA_eq_bodyR p _ _ _ _ _ _ _ hst (by simp [hm']) hr hs
-  | .tup l, s, s', hm, hm', hr, hs => by
+    exact bodyA_eq_bodyR p _ _ _ _ _ _ _ hst (by simp [hm']) hr hs hx.task
+  | .tup l, s, s', hm, hm', hr, hs, hx => by
     simp only [Ys.noRes, Ys.noSync] at hr hs
-    simp [resolveA, ysR, gatherA_eq_yslR l s s' hm hm' hr hs]
-  | .lst l, s, s', hm, hm', hr, hs => by
+    simp [resolveA, ysR, gatherA_eq_yslR l s s' hm hm' hr hs (by simpa [SafeY, SafeL, Ys.excOnly, Ys.noRaiseB] using hx)]
+  | .lst l, s, s', hm, hm', hr, hs, hx => by
     simp only [Ys.noRes, Ys.noSync] at hr hs
-    simp [resolveA, ysR, gatherA_eq_yslR l s s' hm hm' hr hs]
-  | .dict _ l, s, s', hm, hm', hr, hs => by
+    simp [resolveA, ysR, gatherA_eq_yslR l s s' hm hm' hr hs (by simpa [SafeY, SafeL, Ys.excOnly, Ys.noRaiseB] using hx)]
+  | .dict _ l, s, s', hm, hm', hr, hs, hx => by
     simp only [Ys.noRes, Ys.noSync] at hr hs
-    simp [resolveA, ysR, gatherA_eq_yslR l s s' hm hm' hr hs]
+    simp [resolveA, ysR, gatherA_eq_yslR l s s' hm hm' hr hs (by simpa [SafeY, SafeL, Ys.excOnly, Ys.noRaiseB] using hx)]
 theorem gatherA_eq_yslR : ∀ (l : YsL) (s s' : St),
-    s.mode = true → s'.mode = false → l.noRes = true → l.noSync = true → (gatherA l s).1 = (yslR l s').1
-  | .nil, _, _, _, _, _, _ => by simp [gatherA, yslR]
-  | .cons y l, s, s', hm, hm', hr, hs => by
+    s.mode = true → s'.mode = false → l.noRes = true → l.noSync = true → SafeL l →
+    (gatherA l s).1 = (yslR l s').1
+  | .nil, _, _, _, _, _, _, _ => by simp [gatherA, yslR]
+  | .cons y l, s, s', hm, hm', hr, hs, hx => by
     simp only [YsL.noRes, YsL.noSync, Bool.and_eq_true] at hr hs
     simp only [gatherA, yslR]
-    rw [resolveA_eq_ysR y s s' hm hm' hr.1 hs.1]
-    rw [gatherA_eq_yslR l _ (ysR y s').2 (by simp [hm]) (by rw [ysR_mode]; exact hm') hr.2 hs.2]
+    rw [resolveA_eq_ysR y s s' hm hm' hr.1 hs.1 hx.cons.1]
+    rw [gatherA_eq_yslR l _ (ysR y s').2 (by simp [hm]) (by rw [ysR_mode]; exact hm') hr.2 hs.2 hx.cons.2]
 end
 
 /-! ### what an evaluation adds to the log -/
@@ -299,9 +511,11 @@ theorem bodyR_good : ∀ (p : Prog) (gen : Bool) (t : Nat) (env : List Val) (cau
     simp only [bodyR]; exact ⟨rfl, Ext.emitFin s t _ rfl⟩
   | .raise _, _, t, _, _, _, s, _, _ => by
     simp only [bodyR]; exact ⟨rfl, Ext.emitFin s t _ rfl⟩
+  | .raiseB _, _, t, _, _, _, s, _, _ => by
+    simp only [bodyR]; exact ⟨rfl, Ext.emitFin s t _ rfl⟩
   | .reraise, _, t, _, caught, _, s, _, hc => by
     simp only [bodyR]; exact ⟨getD_fine caught hc, Ext.emitFin s t _ rfl⟩
-  | .yld y k h, gen, t, env, caught, i, s, hm, hc => by
+  | .yld hb y k h, gen, t, env, caught, i, s, hm, hc => by
     unfold bodyR
     cases gen
     · simp only [Bool.not_false, if_true]; exact ⟨rfl, Ext.emitFin s t _ rfl⟩
@@ -322,13 +536,15 @@ theorem bodyR_good : ∀ (p : Prog) (gen : Bool) (t : Nat) (env : List Val) (cau
         exact ⟨hf', ((hx.trans (Ext.emit s1 hev)).trans hx').weaken (by simp)⟩
       | err e =>
         simp only [Bool.not_true, Bool.false_eq_true, if_false]
-        have hev : evOkR (.run t (i + 1) (s1.dc y) s1.mode (.err e)) = true := by
-          simp [evOkR, dcOk, modeSeen, syncAllowedOk, noBad, hd, hm1]
-        have he : some e ≠ some Err.syncRefused := by
-          intro hh; injection hh with hh; subst hh; simp [Out.fine] at hf
-        obtain ⟨hf', hx'⟩ := bodyR_good h true t env (some e) (i + 1) (s1.emit (.run t (i + 1) (s1.dc y) s1.mode (.err e)))
-          (by simp [hm1]) he
-        exact ⟨hf', ((hx.trans (Ext.emit s1 hev)).trans hx').weaken (by simp)⟩
+        split
+        · exact ⟨hf, (hx.trans (Ext.emitFin s1 t _ rfl)).weaken (by simp)⟩
+        · have hev : evOkR (.run t (i + 1) (s1.dc y) s1.mode (.err e)) = true := by
+            simp [evOkR, dcOk, modeSeen, syncAllowedOk, noBad, hd, hm1]
+          have he : some e ≠ some Err.syncRefused := by
+            intro hh; injection hh with hh; subst hh; simp [Out.fine] at hf
+          obtain ⟨hf', hx'⟩ := bodyR_good h true t env (some e) (i + 1) (s1.emit (.run t (i + 1) (s1.dc y) s1.mode (.err e)))
+            (by simp [hm1]) he
+          exact ⟨hf', ((hx.trans (Ext.emit s1 hev)).trans hx').weaken (by simp)⟩
       | esc v => simp [Out.fine] at hf
   | .sync c child k h, gen, t, env, caught, i, s, hm, hc => by
     unfold bodyR
@@ -352,10 +568,13 @@ theorem bodyR_good : ∀ (p : Prog) (gen : Bool) (t : Nat) (env : List Val) (cau
       obtain ⟨hf', hx'⟩ := bodyR_good k gen t (env ++ [v]) caught i (s1.emit (.syncX t (.ok v))) (by simp [hm1]) hc
       exact ⟨hf', (hx1.trans hx').weaken (by simp)⟩
     | err e =>
-      have he : some e ≠ some Err.syncRefused := by
-        intro hh; injection hh with hh; subst hh; simp [Out.fine] at hf
-      obtain ⟨hf', hx'⟩ := bodyR_good h gen t env (some e) i (s1.emit (.syncX t (.err e))) (by simp [hm1]) he
-      exact ⟨hf', (hx1.trans hx').weaken (by simp)⟩
+      simp only
+      split
+      · exact ⟨hf, (hx1.trans (Ext.emitFin _ t _ rfl)).weaken (by simp)⟩
+      · have he : some e ≠ some Err.syncRefused := by
+          intro hh; injection hh with hh; subst hh; simp [Out.fine] at hf
+        obtain ⟨hf', hx'⟩ := bodyR_good h gen t env (some e) i (s1.emit (.syncX t (.err e))) (by simp [hm1]) he
+        exact ⟨hf', (hx1.trans hx').weaken (by simp)⟩
     | esc v => simp [Out.fine] at hf
 theorem ysR_good : ∀ (y : Ys) (s : St), s.mode = false →
     (ysR y s).1.fine = true ∧ Ext evOkR (Ys.labels y) s (ysR y s).2
@@ -421,9 +640,11 @@ theorem bodyA_good : ∀ (p : Prog) (gen : Bool) (t : Nat) (env : List Val) (cau
   | .res _, _, _, _, _, _, _, _, hr => by simp [Prog.noRes] at hr
   | .raise _, _, t, _, _, _, s, _, _ => by
     simp only [bodyA]; exact ⟨rfl, Ext.emitFin s t _ rfl⟩
+  | .raiseB _, _, t, _, _, _, s, _, _ => by
+    simp only [bodyA]; exact ⟨rfl, Ext.emitFin s t _ rfl⟩
   | .reraise, _, t, _, _, _, s, _, _ => by
     simp only [bodyA]; exact ⟨rfl, Ext.emitFin s t _ rfl⟩
-  | .yld y k h, gen, t, env, caught, i, s, hm, hr => by
+  | .yld hb y k h, gen, t, env, caught, i, s, hm, hr => by
     simp only [Prog.noRes, Bool.and_eq_true] at hr
     unfold bodyA
     cases gen
@@ -445,16 +666,18 @@ theorem bodyA_good : ∀ (p : Prog) (gen : Bool) (t : Nat) (env : List Val) (cau
         exact ⟨hf', ((hx.trans (Ext.emit s1 hev)).trans hx').weaken (by simp)⟩
       | err e =>
         simp only [Bool.not_true, Bool.false_eq_true, if_false]
-        have hev : evOkA (.run t (i + 1) (s1.dc y) s1.mode (.err e)) = true := by
-          simp [evOkA, dcOk, modeSeen, syncRefusedOk, noBad, hd, hm1]
-        obtain ⟨hf', hx'⟩ := bodyA_good h true t env (some e) (i + 1) (s1.emit (.run t (i + 1) (s1.dc y) s1.mode (.err e)))
-          (by simp [hm1]) hr.2
-        exact ⟨hf', ((hx.trans (Ext.emit s1 hev)).trans hx').weaken (by simp)⟩
+        split
+        · exact ⟨rfl, (hx.trans (Ext.emitFin s1 t _ rfl)).weaken (by simp)⟩
+        · have hev : evOkA (.run t (i + 1) (s1.dc y) s1.mode (.err e)) = true := by
+            simp [evOkA, dcOk, modeSeen, syncRefusedOk, noBad, hd, hm1]
+          obtain ⟨hf', hx'⟩ := bodyA_good h true t env (some e) (i + 1) (s1.emit (.run t (i + 1) (s1.dc y) s1.mode (.err e)))
+            (by simp [hm1]) hr.2
+          exact ⟨hf', ((hx.trans (Ext.emit s1 hev)).trans hx').weaken (by simp)⟩
       | esc v => simp [Out.noEsc] at hf
   | .sync c child k h, gen, t, env, caught, i, s, hm, hr => by
     simp only [Prog.noRes, Bool.and_eq_true] at hr
     unfold bodyA
-    simp only [hm, if_true]
+    simp only [hm, if_true, Err.isBase, Bool.false_eq_true, if_false]
     have hev : evOkA (.syncX t (.err .syncRefused)) = true := by
       simp [evOkA, dcOk, modeSeen, syncRefusedOk, noBad]
     obtain ⟨hf', hx'⟩ := bodyA_good h gen t env (some .syncRefused) i (s.emit (.syncX t (.err .syncRefused))) (by simp [hm]) hr.2
@@ -511,25 +734,27 @@ theorem callPre_nSync (c : Call) (s : St) : (callPre c s).nSync = s.nSync := by
 
 mutual
 theorem bodyA_sem : ∀ (p : Prog) (gen : Bool) (t : Nat) (env : List Val) (caught : Option Err) (i : Nat) (s s' : St),
-    s.mode = true → s'.mode = false → p.noRes = true →
+    s.mode = true → s'.mode = false → p.noRes = true → Safe p caught →
     (bodyA gen t env caught i p s).2.nSync = s.nSync →
     (bodyA gen t env caught i p s).1 = (bodyR gen t env caught i p s').1
-  | .ret _, _, _, _, _, _, _, _, _, _, _, _ => by simp [bodyA, bodyR]
-  | .res _, _, _, _, _, _, _, _, _, _, hr, _ => by simp [Prog.noRes] at hr
-  | .raise _, _, _, _, _, _, _, _, _, _, _, _ => by simp [bodyA, bodyR]
-  | .reraise, _, _, _, _, _, _, _, _, _, _, _ => by simp [bodyA, bodyR]
-  | .sync c child k h, gen, t, env, caught, i, s, s', hm, _, hr, hn => by
+  | .ret _, _, _, _, _, _, _, _, _, _, _, _, _ => by simp [bodyA, bodyR]
+  | .res _, _, _, _, _, _, _, _, _, _, hr, _, _ => by simp [Prog.noRes] at hr
+  | .raise _, _, _, _, _, _, _, _, _, _, _, _, _ => by simp [bodyA, bodyR]
+  | .raiseB _, _, _, _, _, _, _, _, _, _, _, _, _ => by simp [bodyA, bodyR]
+  | .reraise, _, _, _, _, _, _, _, _, _, _, _, _ => by simp [bodyA, bodyR]
+  | .sync c child k h, gen, t, env, caught, i, s, s', hm, _, hr, _, hn => by
     exfalso
     simp only [Prog.noRes, Bool.and_eq_true] at hr
     unfold bodyA at hn
-    simp only [hm, if_true] at hn
+    simp only [hm, if_true, Err.isBase, Bool.false_eq_true, if_false] at hn
     have hx := (bodyA_good h gen t env (some .syncRefused) i (s.emit (.syncX t (.err .syncRefused))) (by simp [hm]) hr.2).2
     have hle := hx.nSync_le
     rw [emit_nSync] at hle
     simp only [isSyncX, if_true] at hle
     omega
-  | .yld y k h, gen, t, env, caught, i, s, s', hm, hm', hr, hn => by
+  | .yld hb y k h, gen, t, env, caught, i, s, s', hm, hm', hr, hx, hn => by
     simp only [Prog.noRes, Bool.and_eq_true] at hr
+    obtain ⟨hxy, hxk, hxh⟩ := hx.yld
     unfold bodyA bodyR
     unfold bodyA at hn
     cases gen
@@ -537,10 +762,11 @@ theorem bodyA_sem : ∀ (p : Prog) (gen : Bool) (t : Nat) (env : List Val) (caug
     · have hgy := (resolveA_good y s hm hr.1.1).2.nSync_le
       have h1 := resolveA_mode y s
       have h2 := ysR_mode y s'
-      have hy := resolveA_sem y s s' hm hm' hr.1.1
+      have hy := resolveA_sem y s s' hm hm' hr.1.1 hxy
+      have hnb := fun hn => resolveA_noB y s hn
       rcases hA : resolveA y s with ⟨r, s1⟩
       rcases hR : ysR y s' with ⟨r', s1'⟩
-      rw [hA] at hy h1 hgy hn
+      rw [hA] at hy h1 hgy hn hnb
       rw [hR] at hy h2
       simp only at hy h1 h2 hgy
       have hm1 : s1.mode = true := by rw [h1, hm]
@@ -553,63 +779,76 @@ theorem bodyA_sem : ∀ (p : Prog) (gen : Bool) (t : Nat) (env : List Val) (caug
         simp only [isSyncX, Bool.false_eq_true, if_false, Nat.add_zero] at hgk
         have hy' := hy (by omega)
         subst hy'
-        exact bodyA_sem k _ _ _ _ _ _ _ (by simp [hm1]) (by simp [h2, hm']) hr.1.2
+        exact bodyA_sem k _ _ _ _ _ _ _ (by simp [hm1]) (by simp [h2, hm']) hr.1.2 hxk
           (by rw [emit_nSync]; simp only [isSyncX, Bool.false_eq_true, if_false, Nat.add_zero]; omega)
       | err e =>
+        obtain ⟨hag, hsafe⟩ := hxh e (fun hn' => by simpa [Out.noB] using hnb hn')
         simp only [Bool.not_true, Bool.false_eq_true, if_false] at hn ⊢
-        have hgk := (bodyA_good h true t env (some e) (i + 1) (s1.emit (.run t (i + 1) (s1.dc y) s1.mode (.err e)))
-          (by simp [hm1]) hr.2).2.nSync_le
-        rw [emit_nSync] at hgk
-        simp only [isSyncX, Bool.false_eq_true, if_false, Nat.add_zero] at hgk
-        have hy' := hy (by omega)
-        subst hy'
-        exact bodyA_sem h _ _ _ _ _ _ _ (by simp [hm1]) (by simp [h2, hm']) hr.2
-          (by rw [emit_nSync]; simp only [isSyncX, Bool.false_eq_true, if_false, Nat.add_zero]; omega)
+        by_cases hbase : e.isBase = true
+        · have hhb : hb = false := by simpa [hbase] using hag
+          subst hhb
+          simp only [hbase, if_true] at hn ⊢
+          rw [emit_nSync] at hn
+          simp only [isSyncX, Bool.false_eq_true, if_false, Nat.add_zero] at hn
+          have hy' := hy (by omega)
+          subst hy'
+          simp [hbase]
+        · have hb0 : e.isBase = false := by simpa using hbase
+          simp only [hb0, Bool.false_eq_true, if_false, Bool.false_and] at hn ⊢
+          have hgk := (bodyA_good h true t env (some e) (i + 1) (s1.emit (.run t (i + 1) (s1.dc y) s1.mode (.err e)))
+            (by simp [hm1]) hr.2).2.nSync_le
+          rw [emit_nSync] at hgk
+          simp only [isSyncX, Bool.false_eq_true, if_false, Nat.add_zero] at hgk
+          have hy' := hy (by omega)
+          subst hy'
+          simp only [hb0, Bool.false_eq_true, if_false, Bool.false_and]
+          exact bodyA_sem h _ _ _ _ _ _ _ (by simp [hm1]) (by simp [h2, hm']) hr.2 hsafe
+            (by rw [emit_nSync]; simp only [isSyncX, Bool.false_eq_true, if_false, Nat.add_zero]; omega)
       | esc v =>
         simp only [Bool.not_true, Bool.false_eq_true, if_false] at hn ⊢
         have hy' := hy (by omega)
         subst hy'
         rfl
 theorem resolveA_sem : ∀ (y : Ys) (s s' : St),
-    s.mode = true → s'.mode = false → y.noRes = true →
+    s.mode = true → s'.mode = false → y.noRes = true → SafeY y →
     (resolveA y s).2.nSync = s.nSync → (resolveA y s).1 = (ysR y s').1
-  | .none, _, _, _, _, _, _ => by simp [resolveA, ysR]
-  | .junk, _, _, _, _, _, _ => by simp [resolveA, ysR]
-  | .const _, _, _, _, _, _, _ => by simp [resolveA, ysR]
-  | .pconst _, s, _, hm, _, _, _ => by simp [resolveA, ysR, hm]
-  | .task c p, s, s', hm, hm', hr, hn => by
+  | .none, _, _, _, _, _, _, _ => by simp [resolveA, ysR]
+  | .junk, _, _, _, _, _, _, _ => by simp [resolveA, ysR]
+  | .const _, _, _, _, _, _, _, _ => by simp [resolveA, ysR]
+  | .pconst _, s, _, hm, _, _, _, _ => by simp [resolveA, ysR, hm]
+  | .task c p, s, s', hm, hm', hr, hx, hn => by
     simp only [Ys.noRes] at hr
     unfold resolveA at hn ⊢
     unfold ysR
     simp only [hm, hm', if_true, Bool.false_eq_true, if_false] at hn ⊢
     rw [callA_eq] at hn ⊢
     simp only [exitMode_nSync] at hn
-    exact bodyA_sem p _ _ _ _ _ _ _ (by simp) (by simp [hm']) hr (by rw [callPre_nSync]; exact hn)
-  | .tup l, s, s', hm, hm', hr, hn => by
+    exact bodyA_sem p _ _ _ _ _ _ _ (by simp) (by simp [hm']) hr hx.task (by rw [callPre_nSync]; exact hn)
+  | .tup l, s, s', hm, hm', hr, hx, hn => by
     simp only [Ys.noRes] at hr
     simp only [resolveA] at hn
-    simp [resolveA, ysR, gatherA_sem l s s' hm hm' hr hn]
-  | .lst l, s, s', hm, hm', hr, hn => by
+    simp [resolveA, ysR, gatherA_sem l s s' hm hm' hr (by simpa [SafeY, SafeL, Ys.excOnly, Ys.noRaiseB] using hx) hn]
+  | .lst l, s, s', hm, hm', hr, hx, hn => by
     simp only [Ys.noRes] at hr
     simp only [resolveA] at hn
-    simp [resolveA, ysR, gatherA_sem l s s' hm hm' hr hn]
-  | .dict _ l, s, s', hm, hm', hr, hn => by
+    simp [resolveA, ysR, gatherA_sem l s s' hm hm' hr (by simpa [SafeY, SafeL, Ys.excOnly, Ys.noRaiseB] using hx) hn]
+  | .dict _ l, s, s', hm, hm', hr, hx, hn => by
     simp only [Ys.noRes] at hr
     simp only [resolveA] at hn
-    simp [resolveA, ysR, gatherA_sem l s s' hm hm' hr hn]
+    simp [resolveA, ysR, gatherA_sem l s s' hm hm' hr (by simpa [SafeY, SafeL, Ys.excOnly, Ys.noRaiseB] using hx) hn]
 theorem gatherA_sem : ∀ (l : YsL) (s s' : St),
-    s.mode = true → s'.mode = false → l.noRes = true →
+    s.mode = true → s'.mode = false → l.noRes = true → SafeL l →
     (gatherA l s).2.nSync = s.nSync → (gatherA l s).1 = (yslR l s').1
-  | .nil, _, _, _, _, _, _ => by simp [gatherA, yslR]
-  | .cons y l, s, s', hm, hm', hr, hn => by
+  | .nil, _, _, _, _, _, _, _ => by simp [gatherA, yslR]
+  | .cons y l, s, s', hm, hm', hr, hx, hn => by
     simp only [YsL.noRes, Bool.and_eq_true] at hr
     simp only [gatherA] at hn
     simp only [gatherA, yslR]
     have hg1 := (resolveA_good y s hm hr.1).2.nSync_le
     have hg2 := (gatherA_good l { (resolveA y s).2 with mode := s.mode } hm hr.2).2.nSync_le
     simp only [setMode_nSync] at hg2
-    rw [resolveA_sem y s s' hm hm' hr.1 (by omega)]
-    rw [gatherA_sem l { (resolveA y s).2 with mode := s.mode } (ysR y s').2 hm (by rw [ysR_mode]; exact hm') hr.2
+    rw [resolveA_sem y s s' hm hm' hr.1 hx.cons.1 (by omega)]
+    rw [gatherA_sem l { (resolveA y s).2 with mode := s.mode } (ysR y s').2 hm (by rw [ysR_mode]; exact hm') hr.2 hx.cons.2
       (by simp only [setMode_nSync]; omega)]
 end
 
